@@ -1539,6 +1539,23 @@ def _build():
              "breaks three in-memory parse tests)",
         site="cdd/shared/docstring_parsers.py (Google: invented defaults after the first defaulted parameter) / cdd/shared/parse/utils/parser_utils.py:merge_present_params",
         example="def fn(alpha: int=5, beta: int=5) documenting only alpha, Google style, emit_default_doc=True -> beta.default == 0"))
+    NESTED = ['Optional[List[Optional[int]]]', 'Dict[str, List[int]]', 'Union[int, str, float]']
+    out.append(dict(
+        id="C02-argparse-nested-type-lossy", property="C02",
+        pattern=dict(check="format_roundtrip", fmt="argparse", entry="param", field="typ", expected={"in": NESTED}),
+        what="[R-argparse-type-lossy] argparse: nested types (Optional[List[Optional[int]]], Dict[str, List[int]], Union of three) come back narrowed to their innermost list/scalar or widened to Optional[dict]",
+        site="cdd/shared/ast_utils.py:param2argparse_param / cdd/argparse_function/utils/emit_utils.py:parse_out_param", example="{'alpha': {'typ': 'Dict[str, List[int]]', 'doc': 'the value'}} through argparse -> typ 'List[int]'"))
+    out.append(dict(
+        id="C02-argparse-nested-type-default", property="C02",
+        pattern=dict(check="format_roundtrip", fmt="argparse", entry="param", field="default", typ_class={"in": ["Optional", "other", "Union"]}, expected={"in": ["code", "ABSENT"]}, observed={"in": ["str", "int", "float"]}),
+        what="[R-argparse-zero-default / R-argparse-code-default] the same two argparse losses for parameters of nested type: invented zero default, code default re-quoted as a string",
+        site="cdd/argparse_function/utils/emit_utils.py:parse_out_param / cdd/shared/ast_utils.py:param2argparse_param", example="{'alpha': {'typ': 'Union[int, str, float]', 'doc': 'the value'}} through argparse -> default 0.0"))
+    out.append(dict(
+        id="C02-function-nested-type-code-default-dequoted", property="C02",
+        pattern=dict(check="format_roundtrip", fmt="function", entry="param", field={"in": ["default", "typ"]}, typ_class={"in": ["Optional", "other"]}, default_kind={"in": ["code", "None"]},
+                     expected={"in": ["code", "Optional[List[Optional[int]]]"]}, observed={"in": ["str", "Optional[str]"]}),
+        what="[R-default-quotes] with emit_default_doc the prose default of a nested-type parameter wins over the signature default and loses its code quotes; the type is then rewritten from the de-quoted text",
+        site="cdd/shared/defaults_utils.py:extract_default / cdd/shared/docstring_parsers.py:_set_name_and_type", example="{'alpha': {'typ': 'Dict[str, List[int]]', 'default': \"```{'k': [1, 2]}```\"}} through function with emit_default_doc=True"))
     out.append(dict(
         id="C02-google-multiline-description-truncated", property="C02",
         pattern=dict(check="format_roundtrip", style="google", multiline_doc=True, field="doc", observed="truncated"),
